@@ -10,15 +10,24 @@ def run(rep, tier, seed):
     ck = (chk_c08, chk_c01, chk_c03)
     q = tier == 'quick'
     runs = [('W1', dict(W=1, L=1, turns=8 if q else 10, env_per_turn=2, max_conns=4 if q else 5, actions=acts, track_c01=True, checks=ck)),
-            ('W2', dict(W=2, L=1, turns=5 if q else 8, env_per_turn=2, max_conns=3 if q else 5, actions=acts, track_c01=True, pickup=True, checks=ck))]
+            ('W2', dict(W=2, L=1, turns=5 if q else 6, env_per_turn=2, max_conns=3 if q else 4, actions=acts, track_c01=True, pickup=True, checks=ck))]
     if not q:
-        runs += [('W3', dict(W=3, L=1, turns=6, env_per_turn=2, max_conns=5, actions=acts, track_c01=True, checks=ck)),
-                 ('W3-two-faults', dict(W=3, L=1, limit=1, turns=6, env_per_turn=3, max_conns=5, max_dead=2, max_replacements=2, actions=acts, track_c01=True, checks=ck)),
-                 ('W2-two-faults', dict(W=2, L=1, turns=6, env_per_turn=3, max_conns=4, max_dead=2, max_replacements=2, actions=acts, track_c01=True, checks=ck))]
+        # (an exhaustive W=3 two-fault run did not finish within an hour: it is not part of this tier)
+        runs += [('W3', dict(W=3, L=1, turns=5, env_per_turn=2, max_conns=4, actions=acts, track_c01=True, checks=ck)),
+                 ('W2-two-faults', dict(W=2, L=1, turns=5, env_per_turn=3, max_conns=3, max_dead=2, max_replacements=2, actions=acts, track_c01=True, checks=ck))]
     else:
         # two simultaneous faults: regression schedule family (quick), exhaustive in thorough
         runs += [('W2-two-faults-limit1', dict(W=2, L=1, limit=1, turns=5, env_per_turn=3, max_conns=3, max_dead=2, max_replacements=0, actions=('connect', 'finish', 'die'), track_c01=True, checks=ck))]
-    run_accept_property(rep, 'C08', runs, tier, seed, also=('C01/', 'C03/'))
+    ctx = run_accept_property(rep, 'C08', runs, tier, seed, also=('C01/', 'C03/'))
+    if ctx is not None:
+        # server side: the real handle_cmd(WorkerFaulted) coroutine (ServerWorker::start modelled)
+        from props import srvrfault
+        rep.need_witness('c08_srv_replacement_started')
+        srvrfault.run_fault_side(rep, ctx, tier, seed)
 
 
-def replay(path): return replay_file(path)
+def replay(path):
+    import json
+    d = json.load(open(path))
+    if d.get('side') == 'server': print(json.dumps(d, indent=1)); print('(engine-S path of handle_cmd(WorkerFaulted); ServerWorker::start has no native counterpart in the mount crate)'); return 1
+    return replay_file(path)
